@@ -24,7 +24,7 @@ from impl_prog import Duck
 from jaxtyping import Float, PyTree, jaxtyped
 
 LEVEL = "proof"
-THEOREMS = ["C12_rest_invariant", "C12_check_flags", "C12_pure_verdict", "C12_generated_good", "C12_facts_matter", "C12_no_other_state"]
+THEOREMS = ["C12_rest_invariant", "C12_check_flags", "C12_pure_verdict", "C12_generated_good", "C12_facts_matter", "C12_no_other_state", "C12_source_flags",]
 RULE = (
     "fault runs = catalogue operation (array check, PyTree check with/without structure name, nested "
     "PyTree, decorated call of 3 flavours, context block) x call-out point (argument formatting in a "
